@@ -40,6 +40,7 @@ class G:
         self.cur_routine = None  # id of the routine whose body is being generated (None: macro bodies)
         self.n_side = 0
         self.side_boost = False
+        self.degenerate_macros: list[str] = []  # macros whose body is an anchor shape (only a return, ...)
         self.side_entries: list[tuple[str, int]] = []
 
     # -- primitives
@@ -257,6 +258,10 @@ class G:
     def block(self, depth, in_loop, in_case, min_len=0, max_len=4):
         n = self.i(min_len, max_len)
         out = []
+        # anchor shape: a block that is exactly one macro call
+        if not self.flat and n <= 1 and self.macro_names and self.b(1, 4):
+            self.take()
+            return [self.macro_call(prefer=self.degenerate_macros)]
         # anchor shapes: a block that is exactly one jump / break / continue
         if not self.flat and n <= 1 and self.b(1, 4):
             s = self.lone_control(in_loop, in_case)
@@ -481,8 +486,9 @@ class G:
         # every loop body starts with an op: no op-free cycle through the loop
         return [self.op()] + body
 
-    def macro_call(self):
-        name = self.pick(self.macro_names)
+    def macro_call(self, prefer=None):
+        cands = [m for m in (prefer or ()) if m in self.macro_names]
+        name = self.pick(cands) if cands and self.b() else self.pick(self.macro_names)
         return {"k": "mcall", "name": name, "args": [self.arg() for _ in range(self.macro_arity[name])]}
 
     # -- routines
